@@ -62,6 +62,23 @@ def check(ctx, recs):
         budget -= 1
         ctx.count("oracle:" + guard)
         tol = 1e-9 if guard == "exact" else 1e-4
+        # 'rewards under minimal reachability': Player 1 follows its final strategy, Player 2 plays inside its reported
+        # reachability strategy and picks the cheapest continuation -> a minimisation over Player 2's restricted choices
+        tl2 = []
+        for s in range(len(tl)):
+            k = g["players"][s]
+            if k == P1 and tl[s]:
+                tl2.append([t for t in tl[s] if t[0] in (out[0][s] or [])][:1] or tl[s][:1])
+            elif k == P2 and tl[s]:
+                tl2.append([t for t in tl[s] if t[0] in (out[1][s] or [])] or tl[s])
+            else:
+                tl2.append(tl[s])
+        y = ox.reward_values(g, r.meta, tl2, fr)
+        if y is not None:
+            for s in live:
+                if abs(rmr[s] - float(y[s])) > tol * (1 + float(y[s])):
+                    ctx.violation("state %d: 'rewards under minimal reachability' %r, expected %s (Player 1 on its final strategy, "
+                                  "Player 2 cheapest inside its reachability strategy)" % (s, rmr[s], y[s]), r.inp(), rew_min_reach=rmr)
         for s in live:
             if abs(pmr[s] - float(x[s])) > tol:
                 ctx.violation("state %d: 'probability under minimal reward' %r, induced chain reaches a final state with %s" % (s, pmr[s], x[s]),
@@ -70,7 +87,7 @@ def check(ctx, recs):
 
 def run(ctx):
     games = [(gen_games.FIG55, gen_games.FIG55_META)] + sc.corpus_games() + gen_games.pattern_games(3)
-    games += gen_games.mixed_games(ctx.rng, 260 if ctx.quick else 5000, 3, 9, styles=("stopping", "exact", "stopping"))
+    games += gen_games.mixed_games(ctx.rng, 260 if ctx.quick else 5000, 3, 9, styles=("stopping", "exact", "ties"))
     recs = sc.run_games(ctx, games, limit=10, tag="c14")
     sc.correspondence(ctx, recs, "cmp_diag", "c14")
     check(ctx, recs)
